@@ -3,6 +3,7 @@ package props
 import (
 	"fmt"
 	"math/rand"
+	"strings"
 	"time"
 
 	"github.com/ErdemOzgen/blackdagger/verifh/core"
@@ -238,7 +239,25 @@ func (f *dagFamily) assign(r *rand.Rand, spec *vexec.CaseSpec) {
 }
 
 func crashKeyGeneric(caseDesc, output string) (string, string) {
-	return "crash", "the process died while executing this case: " + lastPanicLine(output)
+	// cases may run in parallel inside a shard, so the crash is keyed by the
+	// innermost blackdagger frame of the panic, not by the open case
+	fn := "unknown"
+	lines := splitLines(output)
+	for i, l := range lines {
+		if strings.HasPrefix(l, "panic:") || strings.HasPrefix(l, "fatal error:") {
+			for _, x := range lines[i:] {
+				if j := strings.Index(x, "ErdemOzgen/blackdagger/internal/"); j >= 0 && !strings.Contains(x, "/verifh/") && !strings.HasPrefix(x, "\t") {
+					fn = x[j+len("ErdemOzgen/blackdagger/"):]
+					if k := strings.LastIndex(fn, "("); k > 0 {
+						fn = fn[:k]
+					}
+					break
+				}
+			}
+			break
+		}
+	}
+	return "crash:" + fn, "the process died while executing cases: " + lastPanicLine(output)
 }
 
 func init() {
